@@ -26,6 +26,26 @@ rule(r"^format::strftime::StrftimeItems::<'a>::error$", "str-index", r"index\(&o
      "error_len is 1 ('%') plus the len_utf8 of every char consumed from `original` by next!(), minus the len_utf8 of the last one in lenient mode: a char boundary inside `original`")
 rule(r"^format::strftime::StrftimeItems::<'a>::error$", "overflow", r"Sub\(error_len,len_utf8\(c\)\)",
      "error_len already includes c.len_utf8() (c is the last char consumed by next!())")
+# ---- sites that were first reached below a documented panicker and surfaced when the summaries got their context bit --------------------
+rule(r"^naive::date::cycle_to_yo$", "overflow", r"Sub\(year_mod_400,1\)",
+     "the decrement is taken only when ordinal0 < YEAR_DELTAS[year_mod_400]; YEAR_DELTAS[0] == 0 (table verified cell by cell by the YEAR_DELTAS rule of C01), so year_mod_400 >= 1 there")
+rule(r"^naive::date::yo_to_cycle$", "overflow", r"Sub\(Add\(Add\(_,_\)\.0,ordinal\)\.0,1\)",
+     "ordinal is the ordinal of a NaiveDate (1..=366, type invariant of the packed field; every caller passes self.ordinal()), so the sum is >= 1")
+rule(r"^naive::internals::YearFlags::from_year_mod_400$", "bounds", r"index\(year as usize\)",
+     "callers pass year.rem_euclid(400), a div_mod_floor remainder by 400, or cycle_to_yo's adjusted year_mod_400 (400 only before the adjustment: cycle / 365 == 400 implies cycle % 365 <= 96 < YEAR_DELTAS[400] == 97, so it is decremented); "
+     "the value map CYCLE.* of C01 folds every one of these callers over all year classes and both range ends")
+rule(r"^offset::local::tz_info::parser::Cursor::<'a>::read_be_u32$", "bounds", r"copy_from_slice\(",
+     "read_exact(4) returns remaining.get(..4), a slice of exactly 4 bytes, or an error that is propagated before the copy")
+rule(r"^offset::local::tz_info::parser::Cursor::<'a>::read_exact$", "overflow", r"Add\(self\.1,count\)",
+     "read_count is the number of bytes already consumed from the input and count <= remaining.len() on this arm (get(..count) is Some): the sum is at most the input length, which fits usize")
+rule(r"^offset::local::tz_info::timezone::TimeZoneName::new$", "lossy-cast", r"len\(&input\) as u8", "input.len() was tested to lie in 3..=7 a few lines above (the same slice, not modified in between)")
+rule(r"^offset::local::tz_info::timezone::TimeZoneName::as_bytes$", "panic", r"unreachable",
+     "bytes[0] is the length 3..=7 written by TimeZoneName::new, the only constructor (private field; who-may-construct checked by C16 SITES)")
+rule(r"^offset::local::tz_info::timezone::TimeZoneRef::<'a>::validate$", "bounds", r"index\(0\)", "guarded by !self.leap_seconds.is_empty() (short-circuit ||) on the same slice")
+rule(r"^offset::local::tz_info::timezone::TimeZoneRef::<'a>::validate$", "bounds", r"index\(Add\((i_transition|i_leap_second),1\)\.0\)",
+     "guarded by the preceding `i + 1 < len` test of the same slice (short-circuit && resp. enclosing if); the sum is recomputed from the unchanged counter")
+rule(r"^offset::local::tz_info::timezone::TimeZoneRef::<'a>::validate$", "bounds", r"index\(last_transition\.1\)",
+     "the loop above rejected every transition whose local_time_type_index >= local_time_types.len() (counting loop recognised by C16 COVER.validate); last_transition is an element of the same slice")
 # ---- format::scan ------------------------------------------------------------------------------
 rule(r"^format::scan::number$", "str-(index|boundary)", r"index\(&s,RangeFrom\)",
      "i (resp. min(max, len)) counts bytes that are all ASCII digits, taken from the same string: within the string and on a char boundary")
